@@ -1,9 +1,10 @@
 /-
 Driver for E3 (Earley model).
 
-  {"op":"compile","grammar":G,"cap":n}
+  variant V := {"policy":"core"|"impl"|"acyclic","cap":null|n,"predDone":b,"aligned":b,"wideGuard":b,"emptyRegex":b}
+  {"op":"compile","grammar":G,"cap":null|n}
       → {"rules":[[lhs,[[sym…]…]]…],"epscycle":bool}
-  {"op":"parse","grammar":G,"cap":n,"start":s,"policy":"core"|"impl"|"acyclic","fuel":n,
+  {"op":"parse","grammar":G,"variant":V,"start":s,"fuel":n,
    "input":{"bytes":bool,"cells":[n…],"rlen":[[regexId,cell,len]…]},
    "pred":[[column,ntName,[[sym…]…]]…]}
       → {"status":"done"|"raised"|"fuel","steps":n,"cols":[[[lhs,[sym…],dot,origin,nkids]…]…],
@@ -22,7 +23,7 @@ def jSym : ESym → Json
 
 def jRhs (rhs : List ESym) : Json := Json.arr (rhs.map jSym).toArray
 
-def nameTable (G : Grammar) (cap : Nat) : List (String × NT) :=
+def nameTable (G : Grammar) (cap : Option Nat) : List (String × NT) :=
   ("<*start*>", NT.start) :: (allNTs G cap).map (fun x => (ntName x, x))
 
 def ntOfName (tbl : List (String × NT)) (s : String) : Except String NT :=
@@ -47,6 +48,18 @@ def policyOf (s : String) : Except String Policy :=
   | "impl" => pure .impl
   | "acyclic" => pure .acyclic
   | _ => throw s!"bad policy {s}"
+
+def capOf (j : Json) : Except String (Option Nat) :=
+  if j.isNull then pure none else do return some (← j.getNat?)
+
+def variantOf (j : Json) : Except String Variant := do
+  let pol ← policyOf (← j.getObjValAs? String "policy")
+  let cap ← capOf (← j.getObjVal? "cap")
+  return { policy := pol, cap := cap,
+           predDone := (← (← j.getObjVal? "predDone").getBool?),
+           aligned := (← (← j.getObjVal? "aligned").getBool?),
+           wideGuard := (← (← j.getObjVal? "wideGuard").getBool?),
+           emptyRegex := (← (← j.getObjVal? "emptyRegex").getBool?) }
 
 def inputOf (j : Json) : Except String Input := do
   let isB ← (← j.getObjVal? "bytes").getBool?
@@ -77,16 +90,17 @@ def runCount (c : Cfg) : Nat → M → Nat → Res × Nat
 def handle (j : Json) : Except String Json := do
   let op ← j.getObjValAs? String "op"
   let G ← grammarOf (← j.getObjVal? "grammar")
-  let cap ← (← j.getObjVal? "cap").getNat?
   match op with
   | "compile" =>
+    let cap ← capOf (← j.getObjVal? "cap")
     let rs := (allNTs G cap).map (fun x =>
       Json.arr #[Json.str (ntName x), Json.arr ((rulesOf G cap x).map jRhs).toArray])
     return Json.mkObj [("rules", Json.arr rs.toArray), ("epscycle", Json.bool (hasEpsCycle (compile G cap))),
       ("leftcycle", Json.bool (hasLeftCycle (compile G cap)))]
   | "parse" =>
     let start ← j.getObjValAs? String "start"
-    let pol ← policyOf (← j.getObjValAs? String "policy")
+    let v ← variantOf (← j.getObjVal? "variant")
+    let cap := v.cap
     let fuel ← (← j.getObjVal? "fuel").getNat?
     let inp ← inputOf (← j.getObjVal? "input")
     let tbl := nameTable G cap
@@ -105,7 +119,7 @@ def handle (j : Json) : Except String Json := do
       match predTbl.find? (fun e => e.1 == k && decide (e.2.1 = x)) with
       | some e => e.2.2
       | none => rulesOf G cap x
-    let c := mkCfg G cap inp start pol pred
+    let c := mkCfg G v inp start pred
     let (res, steps) := runCount c fuel (M.init c) 0
     let (status, m) := match res with
       | .done m => ("done", m)
